@@ -19,19 +19,20 @@ def FSwf (fs : FS) : Prop := ∀ p, fs p ≠ some .truncated
     was built with, and holds the data the image had when it was loaded; a cache that owns its memory holds
     the same data -/
 def ImgOk (fs : FS) (im : Img) : Prop :=
-  readLayout fs im.src im.srcDt im.srcScaled = some im.data ∧ (∀ d, im.cache = .owned d → d = im.data)
+  readLayout fs im.src im.srcDt im.srcBe im.srcScaled = some im.data ∧ (∀ d w, im.cache = .owned d w → d = im.data)
 
 /-- well-formed state -/
 def WF (s : St) : Prop := FSwf s.fs ∧ ∀ im, s.img = some im → ImgOk s.fs im
 
 /-- image content written by a (possibly class converting) save of `im` onto `q` -/
 def savedContent (im : Img) (q : Path) : Content :=
-  { data := im.data, aff := im.aff, dt := (outHeader im q).1, scaled := outScaled im q, tag := (outHeader im q).2 }
+  { cls := outCls im.cls q.ext, data := im.data, aff := im.aff, dt := (outHeader im q).1, be := (outHeader im q).2.2.1,
+    scaled := outScaled im q, tag := (outHeader im q).2.1, xf := outXF im q }
 
 /-- THE GUARD (open finding): a save onto the live image's own source path must keep the on-disk layout
     (dtype and scaling) the proxy was built with -/
 def layoutKept (im : Img) (q : Path) : Bool :=
-  q != im.src || ((outHeader im q).1 == im.srcDt && outScaled im q == im.srcScaled)
+  q != im.src || ((outHeader im q).1 == im.srcDt && (outHeader im q).2.2.1 == im.srcBe && outScaled im q == im.srcScaled)
 
 def allowed (s : St) : Op → Bool
   | .save q => match s.img with
@@ -41,26 +42,26 @@ def allowed (s : St) : Op → Bool
 
 /-! ### reading through the proxy -/
 
-theorem readLayout_set_other (fs : FS) {p q : Path} (v : Option File) (dt : DT) (sc : Bool) (h : p ≠ q) :
-    readLayout (fs.set q v) p dt sc = readLayout fs p dt sc := by
+theorem readLayout_set_other (fs : FS) {p q : Path} (v : Option File) (dt : DT) (be sc : Bool) (h : p ≠ q) :
+    readLayout (fs.set q v) p dt be sc = readLayout fs p dt be sc := by
   simp [readLayout, FS.set_other fs v h]
 
 theorem readLayout_set_intact (fs : FS) (q : Path) (c : Content) :
-    readLayout (fs.set q (some (.intact c))) q c.dt c.scaled = some c.data := by
+    readLayout (fs.set q (some (.intact c))) q c.dt c.be c.scaled = some c.data := by
   simp [readLayout, FS.set_same]
 
-theorem readLayout_set_truncated (fs : FS) (q : Path) (dt : DT) (sc : Bool) :
-    readLayout (fs.set q (some .truncated)) q dt sc = none := by
+theorem readLayout_set_truncated (fs : FS) (q : Path) (dt : DT) (be sc : Bool) :
+    readLayout (fs.set q (some .truncated)) q dt be sc = none := by
   simp [readLayout, FS.set_same]
 
 theorem materialise_ok {fs : FS} {im : Img} (h : ImgOk fs im) :
-    materialise fs im = some (if im.mapped then .ref im.src im.srcDt im.srcScaled else .copy im.data) := by
+    materialise fs im = some (if im.mapped then .ref im.src im.srcDt im.srcBe im.srcScaled else .copy im.data) := by
   unfold materialise
   rw [h.1]
   by_cases hm : im.mapped = true <;> simp [hm]
 
 theorem deref_materialised {fs : FS} {im : Img} (h : ImgOk fs im) :
-    deref fs (if im.mapped then Mat.ref im.src im.srcDt im.srcScaled else Mat.copy im.data) = some im.data := by
+    deref fs (if im.mapped then Mat.ref im.src im.srcDt im.srcBe im.srcScaled else Mat.copy im.data) = some im.data := by
   by_cases hm : im.mapped = true
   · simp [hm, deref, h.1]
   · simp [hm, deref]
@@ -71,6 +72,32 @@ theorem materialise_deref {fs : FS} {im : Img} (h : ImgOk fs im) :
   simp only [Option.bind_some]
   exact deref_materialised h
 
+/-! ### `update_header` -/
+
+theorem affine2header_best {c : Cls} (hc : c ≠ .spm2) (a : Nat) (x : XF) : (affine2header c a x).best = a := by
+  cases c <;> first | exact absurd rfl hc | simp [affine2header, XF.best]
+
+/-- the decision rule of `update_header`, for ANY reflexive closeness predicate (`np.allclose`): afterwards the
+    header's best affine is close to the image affine -/
+theorem reconcile_best_close (close : Nat → Nat → Bool) (hrefl : ∀ a, close a a = true) {c : Cls} (hc : c ≠ .spm2)
+    (a : Nat) (x : XF) : close a (reconcile close c a x).best = true := by
+  unfold reconcile
+  rw [if_neg hc]
+  by_cases h : close a x.best = true
+  · rw [if_pos h]; exact h
+  · rw [if_neg h, affine2header_best hc]; exact hrefl a
+
+theorem closeId_iff (a b : Nat) : closeId a b = true ↔ a = b := by simp [closeId]
+
+/-- the affine a fresh load of the written file decodes IS the image affine (ids: `allclose` = identity) -/
+theorem outAff_eq (im : Img) (q : Path) : outAff im q = im.aff := by
+  unfold outAff
+  by_cases hc : outCls im.cls q.ext = .spm2
+  · rw [if_pos hc]
+  · rw [if_neg hc]
+    have := reconcile_best_close closeId (fun a => by simp [closeId]) hc im.aff (outHeader im q).2.2.2
+    exact ((closeId_iff _ _).1 this).symm
+
 /-! ### `to_file_map` — current logic -/
 
 theorem writeTo_cur {fs : FS} {im : Img} (h : ImgOk fs im) (q : Path) :
@@ -78,8 +105,8 @@ theorem writeTo_cur {fs : FS} {im : Img} (h : ImgOk fs im) (q : Path) :
   unfold writeTo
   rw [materialise_ok h]
   by_cases hm : im.mapped = true
-  · simp [hm, deref, h.1, FS.set_set, savedContent]
-  · simp [hm, deref, FS.set_set, savedContent]
+  · simp [hm, deref, h.1, FS.set_set, savedContent, outAff_eq]
+  · simp [hm, deref, FS.set_set, savedContent, outAff_eq]
 
 /-- original logic: identical to the current one unless the target is the mapped source itself -/
 theorem writeTo_orig_off_source {fs : FS} {im : Img} (h : ImgOk fs im) {q : Path} (hq : q ≠ im.src) :
@@ -89,8 +116,8 @@ theorem writeTo_orig_off_source {fs : FS} {im : Img} (h : ImgOk fs im) {q : Path
   rw [materialise_ok h]
   have hne : im.src ≠ q := fun e => hq e.symm
   by_cases hm : im.mapped = true
-  · simp [hm, deref, readLayout_set_other fs _ _ _ hne, h.1, FS.set_set, savedContent]
-  · simp [hm, deref, FS.set_set, savedContent]
+  · simp [hm, deref, readLayout_set_other fs _ _ _ _ hne, h.1, FS.set_set, savedContent, outAff_eq]
+  · simp [hm, deref, FS.set_set, savedContent, outAff_eq]
 
 /-- original logic: saving a memory-mapped image onto its own source reads through the truncated file -/
 theorem writeTo_orig_self {fs : FS} {im : Img} (h : ImgOk fs im) (hm : im.mapped = true) :
@@ -108,14 +135,15 @@ theorem FSwf_set_intact {fs : FS} (h : FSwf fs) (q : Path) (c : Content) : FSwf 
   · rw [FS.set_other fs _ e]; exact h p
 
 theorem ImgOk_after_save {fs : FS} {im : Img} (h : ImgOk fs im) {q : Path} (hk : layoutKept im q = true)
-    (im' : Img) (hsrc : im'.src = im.src) (hdt : im'.srcDt = im.srcDt) (hsc : im'.srcScaled = im.srcScaled)
-    (hd : im'.data = im.data) (hc : im'.cache = im.cache) :
+    (im' : Img) (hsrc : im'.src = im.src) (hdt : im'.srcDt = im.srcDt) (hbe : im'.srcBe = im.srcBe)
+    (hsc : im'.srcScaled = im.srcScaled) (hd : im'.data = im.data) (hc : im'.cache = im.cache) :
     ImgOk (fs.set q (some (.intact (savedContent im q)))) im' := by
   refine ⟨?_, ?_⟩
-  · rw [hsrc, hdt, hsc, hd]
+  · rw [hsrc, hdt, hbe, hsc, hd]
     by_cases e : im.src = q
     · -- self-save: the guard says the layout written is the layout the proxy expects
-      have hk' : ((outHeader im q).1 == im.srcDt && outScaled im q == im.srcScaled) = true := by
+      have hk' : ((outHeader im q).1 == im.srcDt && (outHeader im q).2.2.1 == im.srcBe &&
+          outScaled im q == im.srcScaled) = true := by
         simp only [layoutKept] at hk
         cases hq : (q != im.src)
         · simpa [hq] using hk
@@ -123,36 +151,55 @@ theorem ImgOk_after_save {fs : FS} {im : Img} (h : ImgOk fs im) {q : Path} (hk :
       simp only [Bool.and_eq_true, beq_iff_eq] at hk'
       have := readLayout_set_intact fs q (savedContent im q)
       rw [e]
-      simpa [savedContent, hk'.1, hk'.2] using this
-    · rw [readLayout_set_other fs _ _ _ e]; exact h.1
-  · intro d hd'; rw [hc] at hd'; rw [hd]; exact h.2 d hd'
+      simpa [savedContent, hk'.1.1, hk'.1.2, hk'.2] using this
+    · rw [readLayout_set_other fs _ _ _ _ e]; exact h.1
+  · intro d w hd'; rw [hc] at hd'; rw [hd]; exact h.2 d w hd'
 
-theorem getFdata_ok {fs : FS} {im : Img} (h : ImgOk fs im) :
-    ∃ ca, getFdata fs im = some (im.data, { im with cache := ca }) ∧ ImgOk fs { im with cache := ca } := by
+/-- a fresh conversion through the proxy (`np.asanyarray(dataobj, dtype)`) -/
+theorem getFdata_fresh {fs : FS} {im : Img} (h : ImgOk fs im) (w : Bool) :
+    ∃ ca, (match materialise fs im with
+      | none => none
+      | some m =>
+        match deref fs m with
+        | none => none
+        | some d =>
+          let aliasing := (match m with | .ref _ _ _ _ => true | .copy _ => false) && !im.srcBe &&
+                            im.srcDt == (if w then DT.f32 else DT.f64)
+          some (d, { im with cache := if aliasing then .alias w else .owned d w })) =
+        some (im.data, { im with cache := ca }) ∧ ImgOk fs { im with cache := ca } := by
+  simp only [materialise_ok h, deref_materialised h]
+  have own : ImgOk fs { im with cache := .owned im.data w } :=
+    ⟨h.1, fun d' w' hd' => by simp at hd'; exact hd'.1.symm⟩
+  have ali : ImgOk fs { im with cache := .alias w } := ⟨h.1, fun d' w' hd' => by simp at hd'⟩
+  generalize hb : ((match (if im.mapped = true then Mat.ref im.src im.srcDt im.srcBe im.srcScaled else Mat.copy im.data) with
+      | .ref _ _ _ _ => true | .copy _ => false) && !im.srcBe && im.srcDt == (if w then DT.f32 else DT.f64)) = b
+  cases b
+  · exact ⟨.owned im.data w, by simp, own⟩
+  · exact ⟨.alias w, by simp, ali⟩
+
+theorem getFdata_ok {fs : FS} {im : Img} (h : ImgOk fs im) (w : Bool) :
+    ∃ ca, getFdata fs im w = some (im.data, { im with cache := ca }) ∧ ImgOk fs { im with cache := ca } := by
   unfold getFdata
   cases hc : im.cache with
-  | owned d =>
-      refine ⟨.owned d, ?_, ?_⟩
-      · have : d = im.data := h.2 d hc
-        subst this
-        simp only [Option.some.injEq, Prod.mk.injEq, true_and]
-        cases im; simp_all
-      · exact ⟨h.1, fun d' hd' => by simp at hd'; subst hd'; exact h.2 _ hc⟩
-  | alias =>
-      refine ⟨.alias, ?_, ?_⟩
-      · simp only [h.1, Option.map_some, Option.some.injEq, Prod.mk.injEq, true_and]
-        cases im; simp_all
-      · exact ⟨h.1, fun d' hd' => by simp at hd'⟩
-  | none =>
-      simp only [materialise_ok h, deref_materialised h]
-      have own : ImgOk fs { im with cache := .owned im.data } :=
-        ⟨h.1, fun d' hd' => by simp at hd'; exact hd'.symm⟩
-      have ali : ImgOk fs { im with cache := .alias } := ⟨h.1, fun d' hd' => by simp at hd'⟩
-      cases hm : im.mapped <;> cases hf : (im.srcDt == DT.f64)
-      · exact ⟨.owned im.data, by simp, own⟩
-      · exact ⟨.owned im.data, by simp, own⟩
-      · exact ⟨.owned im.data, by simp, own⟩
-      · exact ⟨.alias, by simp, ali⟩
+  | owned d w' =>
+      by_cases hw : w' = w
+      · refine ⟨.owned d w', ?_, ?_⟩
+        · have : d = im.data := h.2 d w' hc
+          subst this
+          simp only [hw, if_true, Option.some.injEq, Prod.mk.injEq, true_and]
+          cases im; simp_all
+        · exact ⟨h.1, fun d' w'' hd' => by simp at hd'; obtain ⟨h1, _⟩ := hd'; subst h1; exact h.2 _ _ hc⟩
+      · simp only [hw, if_false]
+        exact getFdata_fresh h w
+  | alias w' =>
+      by_cases hw : w' = w
+      · refine ⟨.alias w', ?_, ?_⟩
+        · simp only [hw, if_true, h.1, Option.map_some, Option.some.injEq, Prod.mk.injEq, true_and]
+          cases im; simp_all
+        · exact ⟨h.1, fun d' w'' hd' => by simp at hd'⟩
+      · simp only [hw, if_false]
+        exact getFdata_fresh h w
+  | none => exact getFdata_fresh h w
 
 theorem load_ok {fs : FS} {p : Path} {mm : Bool} {im : Img} (h : load fs p mm = some im) : ImgOk fs im := by
   unfold load at h
@@ -160,7 +207,7 @@ theorem load_ok {fs : FS} {p : Path} {mm : Bool} {im : Img} (h : load fs p mm = 
   · rename_i c hc
     simp only [Option.some.injEq] at h
     subst h
-    exact ⟨by simp [readLayout, hc], fun d hd => by simp at hd⟩
+    exact ⟨by simp [readLayout, hc], fun d w hd => by simp at hd⟩
   · simp at h
 
 /-! ### one step of a history -/
@@ -175,7 +222,7 @@ theorem usable_of_WF {s : St} (h : WF s) : Usable s := by
   | none => rfl
   | some im =>
       have hok := h.2 im hi
-      obtain ⟨ca, hg, _⟩ := getFdata_ok hok
+      obtain ⟨ca, hg, _⟩ := getFdata_ok hok false
       simp [hg, materialise_deref hok]
 
 /-- what one op must have done: it did not crash; a save wrote exactly the image state (data and affine the image
@@ -193,7 +240,7 @@ def StepSpec (s : St) (op : Op) (r : Out × St) : Prop :=
 
 theorem save_cur {fs : FS} {im : Img} (h : ImgOk fs im) (q : Path) :
     save false fs im q = (.saved (savedContent im q), fs.set q (some (.intact (savedContent im q))),
-      if q.cls = im.cls then { im with fname := some q, hdrAff := im.aff } else im) := by
+      if outCls im.cls q.ext = im.cls then { im with fname := some q, xf := outXF im q } else im) := by
   unfold save
   rw [writeTo_cur h]
 
@@ -220,7 +267,7 @@ theorem step_safe_aux (s : St) (op : Op) (hw : WF s) (ha : allowed s op = true) 
   | none =>
       cases op with
       | load p mm => exact step_load_aux fs none p mm hfs himg
-      | fdata => exact ⟨⟨by simp [step, withImg], rfl⟩, hfs, himg⟩
+      | fdata w => exact ⟨⟨by simp [step, withImg], rfl⟩, hfs, himg⟩
       | uncache => exact ⟨⟨by simp [step, withImg], rfl⟩, hfs, himg⟩
       | edit k => exact ⟨⟨by simp [step, withImg], rfl⟩, hfs, himg⟩
       | setAff k => exact ⟨⟨by simp [step, withImg], rfl⟩, hfs, himg⟩
@@ -234,21 +281,21 @@ theorem step_safe_aux (s : St) (op : Op) (hw : WF s) (ha : allowed s op = true) 
         ⟨hfs, fun im' h' => by simp only [Option.some.injEq] at h'; subst h'; exact h1⟩
       cases op with
       | load p mm => exact step_load_aux fs (some im) p mm hfs himg
-      | fdata =>
-          obtain ⟨ca, hg, hok'⟩ := getFdata_ok hok
+      | fdata w =>
+          obtain ⟨ca, hg, hok'⟩ := getFdata_ok hok w
           simp only [step, withImg, hg]
           exact ⟨⟨by simp, rfl⟩, wf1 _ hok'⟩
       | uncache =>
           simp only [step, withImg]
-          exact ⟨⟨by simp, rfl⟩, wf1 _ ⟨hok.1, fun d hd => by simp at hd⟩⟩
+          exact ⟨⟨by simp, rfl⟩, wf1 _ ⟨hok.1, fun d w hd => by simp at hd⟩⟩
       | edit k =>
           simp only [step, withImg]
           exact ⟨⟨by simp, rfl⟩, wf1 _ hok⟩
       | setAff k =>
           simp only [step, withImg]
-          by_cases hc : im.cls = .mgh
-          · simp only [hc, if_true]; exact ⟨⟨by simp, rfl⟩, wf1 _ hok⟩
-          · simp only [hc, if_false]; exact ⟨⟨by simp, rfl⟩, wf1 _ hok⟩
+          cases hc : im.cls.isNifti
+          · exact ⟨⟨by simp, rfl⟩, wf1 _ hok⟩
+          · exact ⟨⟨by simp, rfl⟩, wf1 _ hok⟩
       | hdrEdit k =>
           simp only [step, withImg]
           exact ⟨⟨by simp, rfl⟩, wf1 _ hok⟩
@@ -262,27 +309,27 @@ theorem step_safe_aux (s : St) (op : Op) (hw : WF s) (ha : allowed s op = true) 
       | toBytes =>
           simp only [step, withImg]
           unfold toBytes
-          by_cases hc : im.cls = .pair
-          · simp only [hc, if_true]
+          cases hc : im.cls.hasToBytes
+          · simp only [if_true]
             exact ⟨⟨by simp, rfl⟩, wf1 _ hok⟩
-          · simp only [hc, if_false, materialise_deref hok]
+          · simp only [Bool.true_eq_false, if_false, materialise_deref hok]
             exact ⟨⟨by simp, rfl⟩, wf1 _ hok⟩
       | save q =>
           have hk : layoutKept im q = true := by simpa [allowed] using ha
           simp only [step, withImg, save_cur hok]
           refine ⟨⟨by simp, rfl, FS.set_same _ _ _, fun p hp => FS.set_other _ _ hp, ?_⟩,
                   FSwf_set_intact hfs q _, ?_⟩
-          · by_cases hc : q.cls = im.cls
-            · exact ⟨{ im with fname := some q, hdrAff := im.aff }, by simp only [hc, if_true], rfl, rfl, rfl, rfl, rfl⟩
+          · by_cases hc : outCls im.cls q.ext = im.cls
+            · exact ⟨{ im with fname := some q, xf := outXF im q }, by simp only [hc, if_true], rfl, rfl, rfl, rfl, rfl⟩
             · exact ⟨im, by simp only [hc, if_false], rfl, rfl, rfl, rfl, rfl⟩
           · intro im' h'
             simp only [Option.some.injEq] at h'
             subst h'
-            by_cases hc : q.cls = im.cls
+            by_cases hc : outCls im.cls q.ext = im.cls
             · simp only [hc, if_true]
-              exact ImgOk_after_save hok hk _ rfl rfl rfl rfl rfl
+              exact ImgOk_after_save hok hk _ rfl rfl rfl rfl rfl rfl
             · simp only [hc, if_false]
-              exact ImgOk_after_save hok hk _ rfl rfl rfl rfl rfl
+              exact ImgOk_after_save hok hk _ rfl rfl rfl rfl rfl rfl
 
 /-! ### whole histories -/
 
